@@ -22,17 +22,41 @@ import (
 // (SaveCache -> NewManager -> LoadCache) BETWEEN ANY TWO STEPS of its threads — also while fetched events are still
 // queued in the sync loop's input channels. At the end the node must have converged to the producer's chain.
 
-func ingressBody(t *testing.T, c *explore.Ctx, pc *world.ProducerChain) (out outcome) {
-	synctest.Test(t, func(t *testing.T) { out = ingressBubble(c, pc) })
+func ingressBody(t *testing.T, c *explore.Ctx, pc *world.ProducerChain, crowded bool) (out outcome) {
+	synctest.Test(t, func(t *testing.T) { out = ingressBubble(c, pc, crowded) })
 	return
 }
 
-func ingressBubble(c *explore.Ctx, pc *world.ProducerChain) (out outcome) {
+// retrievalBatch is the number of blobs types.RetrieveWithHelpers fetches with one call (measured by C09's crowded part).
+const retrievalBatch = 100
+
+// crowdFillers lists the numbers N of filler junk blobs in front of the chain's n genuine blobs (placed consecutively
+// at ONE DA height) for which some genuine blob lands on an index in {b-1, b, b+1, 2b, 2b+1}; over the whole list every
+// genuine blob lands on every one of these indices.
+func crowdFillers(n int) []int {
+	seen := map[int]bool{}
+	var out []int
+	for _, t := range []int{retrievalBatch - 1, retrievalBatch, retrievalBatch + 1, 2 * retrievalBatch, 2*retrievalBatch + 1} {
+		for k := 0; k < n; k++ {
+			if N := t - k; N >= 0 && !seen[N] {
+				seen[N] = true
+				out = append(out, N)
+			}
+		}
+	}
+	sort.Ints(out)
+	return out
+}
+
+// crowded: the "crowded height" configuration — all genuine blobs of the chain sit at one DA height behind N filler
+// junk blobs, so that the height takes more than one retrieval batch and the genuine blobs straddle the batch borders.
+// DA is then the only ingress (P2P would supply the same items and hide the DA path).
+func ingressBubble(c *explore.Ctx, pc *world.ProducerChain, crowded bool) (out outcome) {
 	const maxDA = 3
 	env := world.NewEnv()
 	root := filepath.Join(os.TempDir(), fmt.Sprintf("c02-l2-%d-%d", os.Getpid(), rootSeq.Add(1)))
 	defer os.RemoveAll(root)
-	p2p := c.Choose("config", 2) == 1
+	p2p := !crowded && c.Choose("config", 2) == 1
 	// ahead: the DA layer already holds everything when the node starts (a node syncing from behind): the scan runs
 	// ahead of the sync loop through all heights and the event queues fill up
 	ahead := c.Choose("config", 2) == 1
@@ -54,6 +78,16 @@ func ingressBubble(c *explore.Ctx, pc *world.ProducerChain) (out outcome) {
 		k := c.Choose("place", maxDA) // 0 = canonical height, then the others
 		return uint64((canon(i)+k)%maxDA + 1)
 	}
+	fillers := 0
+	if crowded {
+		ns := crowdFillers(len(pc.Events()))
+		fillers = ns[c.Choose("crowd", len(ns))]
+		at := uint64(c.Choose("crowdat", maxDA)) + 1
+		pick = func(int) uint64 { return at }
+		for j := 0; j < fillers; j++ {
+			blobs = append(blobs, placed{[]byte(fmt.Sprintf("filler-%d", j)), at, ""})
+		}
+	}
 	for i := 0; i < pc.Len(); i++ {
 		blobs = append(blobs, placed{pc.HdrBlobs[i], pick(i), fmt.Sprintf("H%d", i)})
 		if pc.DatBlobs[i] != nil {
@@ -61,8 +95,17 @@ func ingressBubble(c *explore.Ctx, pc *world.ProducerChain) (out outcome) {
 		}
 	}
 	var layout []string
-	for _, b := range blobs {
-		layout = append(layout, fmt.Sprintf("%s@%d", b.name, b.at))
+	if fillers > 0 {
+		layout = append(layout, fmt.Sprintf("%d-filler-blobs@%d", fillers, blobs[0].at))
+	}
+	for k, b := range blobs {
+		if b.name != "" {
+			if crowded {
+				layout = append(layout, fmt.Sprintf("%s@%d[index %d]", b.name, b.at, k))
+			} else {
+				layout = append(layout, fmt.Sprintf("%s@%d", b.name, b.at))
+			}
+		}
 	}
 	out.trace = append(out.trace, "DA:"+strings.Join(layout, ","), fmt.Sprintf("p2p=%v ahead=%v", p2p, ahead))
 	p := world.Params{InitialHeight: pc.Initial, DAStartHeight: 1, RootDir: root}
